@@ -228,7 +228,32 @@ def run_crash_case(case: dict) -> dict:
             hr = dsgen.HistoryRunner(
                 hist, root, pool_factory=lambda ses: simexec.SimPool)
             try:
-                hr.create()
+                if case.get("crash_create"):
+                    # crash points inside Dataset.create itself
+                    def create_hook(ev) -> None:
+                        if state["violation"] is None:
+                            stats["create_instants"] += 1
+                            try:
+                                crash_oracle(hr, tracker, {}, {}, stats,
+                                             f"crash inside Dataset.create "
+                                             f"after effect #{ev[0]} "
+                                             f"({ev[2]} {ev[3]})")
+                            except Violation as v:
+                                state["violation"] = v
+                                raise
+
+                    fs.hooks.append(create_hook)
+                    fs.chunk = case.get("chunk", 0)
+                    try:
+                        hr.create()
+                    finally:
+                        fs.hooks.remove(create_hook)
+                        fs.chunk = 0
+                    if state["violation"] is not None:
+                        raise state["violation"]
+                    probes["crash_points_inside_create"] += 1
+                else:
+                    hr.create()
                 last = len(hist["sessions"]) - 1
                 for k in range(last):
                     try:
